@@ -246,3 +246,18 @@ Proof.
   - eapply Forall2_trans'; [exact same_core_trans|exact F1|exact K2].
   - rewrite F2. exact K3.
 Qed.
+
+(** * default mode end to end, heavy-atom part of clause (c): the changed bonds of a reaction proposed with the rule
+      prepared from [tpl] are the images of the template's changed bonds that touch no stripped hydrogen *)
+From SK Require Import proof.C03_Iso.
+From Coq Require Import Permutation.
+Theorem default_changed_bonds tpl rc l r host m T :
+  nodupb (node_ids tpl) = true -> synrule tpl true = Some (rc, l, r) ->
+  wf_hostb host = true -> wf_rcb rc = true -> match_rcb host rc m = true -> glue host rc m = Some T ->
+  exists removed,
+    (forall h, In h removed -> is_H_i tpl h = true) /\
+    Permutation (changed_bonds T) (flat_map (image_key m) (filter is_changed (filter (keepe removed) (gedges tpl)))).
+Proof.
+  intros Hnd Hs Hwh Hwr Hm Hg. destruct (synrule_default_skeleton tpl rc l r Hnd Hs) as (removed & H1 & _ & H3).
+  exists removed. split; [exact H1|]. rewrite <- H3. exact (changed_bonds_perm host rc m T Hwh Hwr Hm Hg).
+Qed.
